@@ -6,8 +6,9 @@ from ..apigen import File
 RULE = ("(1) generation time: APIs whose request messages declare every kind of candidate field (plain / proto3-optional string with "
         "UUID4, REQUIRED, other formats, no annotation, bytes / int / bool / enum / message with the annotation, nested, repeated) and "
         "unary, server-, client- and bidi-streaming methods in two services, crossed with method-settings lists: valid ones, each single "
-        "violation injected at a random position, duplicates (of valid, invalid and unknown selectors, twice and three times), and "
-        "random mixtures; one case = one (API, settings list); non-trivial = some entry lists at least one field or a selector repeats. "
+        "violation injected at a random position, duplicates (of valid, invalid and unknown selectors, twice and three times), "
+        "random mixtures, and all of these crossed with a non-empty selective_gapic_generation allow-list in both modes (entry naming the listed "
+        "method / an omitted existing method / no method at all); one case = one (API, settings list); non-trivial = some entry lists at least one field or a selector repeats. "
         "(2) call time: generated libraries (grpc+rest) with accepted settings, every auto-populated method called through the sync gRPC, "
         "asyncio gRPC and REST clients with the field unset / empty / set, request given as message, dict, None or flattened keywords, "
         "two or three calls each; one case = one (library, method, client kind, request mode, caller valuation); all are non-trivial. "
@@ -226,9 +227,11 @@ def gen_settings(r, desc, kind):
 
 
 # ---- the property's own sentence about generation (direct oracle; independent of the model and of /repo) ----
-def spec_verdict(desc, settings):
-    """'must-fail' | 'must-succeed' | 'either' (an entry that lists no field but names a missing method: the sentence is about
-    auto_populated_fields entries and duplicate selectors only)."""
+def spec_verdict(desc, settings, selective=None):
+    """'must-fail' | 'must-succeed' | 'either'.  'either': an entry that lists no field but names a missing method (the sentence is
+    about auto_populated_fields entries and duplicate selectors only), or an entry naming a method that exists in the proto but is
+    pruned by selective generation (the sentence demands rejection only of selectors naming NO method of the API).
+    desc is the proto's full method table: existence is judged against it, never against the pruned table."""
     sels = [e["selector"] for e in settings]
     if len(set(sels)) != len(sels):
         return "must-fail"
@@ -237,8 +240,11 @@ def spec_verdict(desc, settings):
         m = desc["methods"].get(e["selector"])
         fields = e.get("auto_populated_fields") or []
         if not fields:
-            if m is None:
+            if m is None or pruned(selective, e["selector"]):
                 either = True
+            continue
+        if m is not None and pruned(selective, e["selector"]):
+            either = True
             continue
         if m is None or m["cs"] or m["ss"] or m["fields"] is None:
             return "must-fail"
@@ -249,13 +255,13 @@ def spec_verdict(desc, settings):
     return "either" if either else "must-succeed"
 
 
-def only_gap_is_repeated(desc, settings):
+def only_gap_is_repeated(desc, settings, selective=None):
     """Would the sentence accept the list if repeated string fields counted as strings?"""
     d2 = json.loads(json.dumps(desc))
     for m in d2["methods"].values():
         for f in (m["fields"] or []):
             f["repeated"] = False
-    return spec_verdict(d2, settings) != "must-fail"
+    return spec_verdict(d2, settings, selective) != "must-fail"
 
 
 # ---- terms ----
@@ -269,6 +275,13 @@ def coq_methods(desc):
                                      f"{coq.b(f['optional'])} {coq.b(f['repeated'])})" for f in m["fields"]) + ")"
         out.append(f"(mkMethod {coq.s(sel)} {coq.b(m['cs'])} {coq.b(m['ss'])} {inp})")
     return coq.lst(out)
+
+
+def coq_table(desc, selective):
+    """API.all_methods of the API object the templates see: the proto's table after the allow-list (Model.visible_methods)."""
+    if not selective:
+        return coq_methods(desc)
+    return f"(visible_methods {coq.slist(selective['methods'])} {coq.b(selective['internal'])} {coq_methods(desc)})"
 
 
 def coq_settings(settings):
@@ -304,9 +317,19 @@ def coq_outcome(o):
     return "(Rejected " + coq.lst(items) + ")"
 
 
-def service_yaml(settings):
-    return {"type": "google.api.Service", "config_version": 3, "name": "library.example.com",
-            "publishing": {"method_settings": settings}}
+def service_yaml(settings, selective=None):
+    """selective: None | {"methods": [selectors], "internal": bool} -> publishing.library_settings of the proto package."""
+    y = {"type": "google.api.Service", "config_version": 3, "name": "library.example.com",
+         "publishing": {"method_settings": settings}}
+    if selective is not None:
+        y["publishing"]["library_settings"] = [{"version": PKG, "python_settings": {"common": {"selective_gapic_generation": {
+            "methods": list(selective["methods"]), "generate_omitted_as_internal": bool(selective["internal"])}}}}]
+    return y
+
+
+def pruned(selective, selector):
+    """Is this (existing) method left out of the API object by the allow-list (pruning mode only)?"""
+    return bool(selective and selective["methods"] and not selective["internal"] and selector not in selective["methods"])
 
 
 def systematic_settings(r, desc, full):
@@ -349,19 +372,69 @@ def systematic_settings(r, desc, full):
     return out
 
 
+def selective_settings(r, desc, full):
+    """Method-settings validation crossed with a NON-EMPTY selective_gapic_generation allow-list, both modes: the entry names the
+    listed method / an omitted existing method / no method at all (misspelt), with and without fields, alone and next to others."""
+    L, A = f"{PKG}.Library.", f"{PKG}.Admin."
+    out = []
+    allows = [[L + "CreateBook"], [A + "GetThing"], [L + "CreateBook", L + "UpdateBook", A + "CreateThing"], [L + "WatchBooks", A + "CreateThing"]]
+    if not full:
+        allows = r.sample(allows, 2)
+    for internal in (False, True):
+        for allow in allows:
+            sel = {"methods": allow, "internal": internal}
+            good = {"selector": L + "CreateBook", "auto_populated_fields": ["request_id", "opt_id"]}
+            thing = {"selector": A + "CreateThing", "auto_populated_fields": ["request_id"]}
+            variants = [
+                ("listed-or-omitted-valid", [good]), ("listed-or-omitted-valid", [thing]), ("listed-or-omitted-valid", [good, thing]),
+                ("selective-misspelt", [{"selector": L + "CreateBooks", "auto_populated_fields": ["request_id"]}]),
+                ("selective-misspelt", [{"selector": A + "CreateThings", "auto_populated_fields": ["request_id"]}, good]),
+                ("selective-misspelt", [thing, {"selector": f"{PKG}.Librarian.CreateBook", "auto_populated_fields": ["opt_id"]}]),
+                ("selective-misspelt-no-fields", [{"selector": L + "CreateBooks", "auto_populated_fields": []}, good]),
+                ("selective-bad-field", [{"selector": L + "CreateBook", "auto_populated_fields": ["name"]}]),
+                ("selective-bad-field", [{"selector": A + "CreateThing", "auto_populated_fields": ["count"]}]),
+                ("selective-streaming", [{"selector": L + "WatchBooks", "auto_populated_fields": ["request_id"]}]),
+                ("selective-duplicate", [good, dict(good)]),
+                ("selective-duplicate", [{"selector": L + "CreateBooks", "auto_populated_fields": ["request_id"]}] * 2),
+                ("selective-empty-list", []),
+            ]
+            if not full:
+                variants = variants[:6] + r.sample(variants[6:], 3)
+            for kind, lst in variants:
+                out.append((kind + ("-internal" if internal else "-pruning"), [dict(e) for e in lst], sel))
+    return out
+
+
+def load_corpus():
+    d = os.path.join(env.VERIF, "corpus", "C18")
+    out = []
+    if os.path.isdir(d):
+        for n in sorted(os.listdir(d)):
+            if n.endswith(".json"):
+                c = json.load(open(os.path.join(d, n)))
+                if c.get("kind") == "validation-corpus":
+                    out.append(("corpus:" + n, c["settings"], c.get("selective")))
+    return out
+
+
 def run_validation(ctx, n_apis, per_api, seed_tag="C18-val", cli_every=7, full_first=1):
     cases = []
     for a in range(n_apis):
         r = env.rng(seed_tag, a)
         files, desc = validation_api(r)
         kinds = ["valid", "violation", "violation", "violation", "duplicate", "duplicate", "repeated-field", "mixture"]
-        todo = systematic_settings(r, desc, full=a < full_first) + [(kinds[k % len(kinds)], None) for k in range(per_api)]
-        for k, (kind, settings) in enumerate(todo):
+        todo = (load_corpus() if a == 0 else []) + [(k, st, None) for k, st in systematic_settings(r, desc, full=a < full_first)] \
+            + selective_settings(r, desc, full=a < full_first) + [(kinds[k % len(kinds)], None, None) for k in range(per_api)]
+        all_sels = list(desc["methods"])
+        for k, (kind, settings, selective) in enumerate(todo):
             if settings is None:
                 settings = gen_settings(r, desc, kind)
+                if r.random() < 0.3:      # random lists crossed with a random allow-list
+                    selective = {"methods": r.sample(all_sels, r.randint(1, 4)), "internal": r.random() < 0.5}
+                    kind += "+selective"
             cd = gen.case_dir(f"c18v{seed_tag}{a}_{k}")
-            req = gen.with_params(apigen.request(files), ["transport=grpc"], cd, service_yaml=service_yaml(settings))
-            cases.append({"kind": kind, "desc": desc, "settings": settings, "req": req, "api": a})
+            req = gen.with_params(apigen.request(files), ["transport=grpc"], cd, service_yaml=service_yaml(settings, selective))
+            cases.append({"kind": kind, "desc": desc, "settings": settings, "selective": selective, "req": req, "api": a})
     outs = []
     chunks = [cases[i:i + 24] for i in range(0, len(cases), 24)]
     for part in gen.pmap(lambda ch: gen.impl("msettings", [{"request_b64": apigen.req_b64(c["req"])} for c in ch]), chunks):
@@ -370,26 +443,30 @@ def run_validation(ctx, n_apis, per_api, seed_tag="C18-val", cli_every=7, full_f
     cli_res = gen.pmap(lambda c: gen.run_generator(c["req"]), cli)
     checks, pending = [], []
     for c, o in zip(cases, outs):
-        settings, desc = c["settings"], c["desc"]
+        settings, desc, selective = c["settings"], c["desc"], c["selective"]
         sels = [e["selector"] for e in settings]
         nontrivial = any(e.get("auto_populated_fields") for e in settings) or len(set(sels)) != len(sels)
-        ctx.case({"api": c["api"], "settings": settings, "fields": {k: [f["name"] for f in (m["fields"] or [])] for k, m in desc["methods"].items()}},
-                 nontrivial=nontrivial, feature=[f"settings-{c['kind']}", f"outcome-{o['outcome']}", f"entries={min(len(settings), 6)}"])
-        case = {"kind": "validation", "settings": settings, "desc": desc, "request_b64": apigen.req_b64(c["req"]), "outcome": o}
+        ctx.case({"api": c["api"], "settings": settings, "selective": selective, "fields": {k: [f["name"] for f in (m["fields"] or [])] for k, m in desc["methods"].items()}},
+                 nontrivial=nontrivial, feature=[f"settings-{c['kind']}", f"outcome-{o['outcome']}", f"entries={min(len(settings), 6)}",
+                                                 "selective-" + ("off" if not selective else "internal" if selective["internal"] else "pruning")])
+        case = {"kind": "validation", "settings": settings, "selective": selective, "desc": desc, "request_b64": apigen.req_b64(c["req"]), "outcome": o}
         c["case"] = case
         if o["outcome"] == "harness-error":
             ctx.oblige("T2 validation: impl script ran", False, json.dumps(o)[:500])
             continue
-        label = f"api#{c['api']} {c['kind']} settings={json.dumps([[e['selector'].replace(PKG + '.', ''), e.get('auto_populated_fields')] for e in settings])} impl={json.dumps(o)[:240]}"
-        checks.append((label, f"outcome_eqb (enforce {coq_methods(desc)} {coq_settings(settings)}) {coq_outcome(o)}"))
+        seltxt = "" if not selective else f" selective={[x.replace(PKG + '.', '') for x in selective['methods']]}/{'internal' if selective['internal'] else 'pruning'}"
+        label = f"api#{c['api']} {c['kind']}{seltxt} settings={json.dumps([[e['selector'].replace(PKG + '.', ''), e.get('auto_populated_fields')] for e in settings])} impl={json.dumps(o)[:240]}"
+        checks.append((label, f"outcome_eqb (enforce {coq_table(desc, selective)} {coq_settings(settings)}) {coq_outcome(o)}"))
         # ---- direct oracle ----
-        verdict = spec_verdict(desc, settings)
+        verdict = spec_verdict(desc, settings, selective)
         failed = o["outcome"] != "accepted"
         if verdict == "must-fail" and not failed:
-            sig = SIG_REPEATED if only_gap_is_repeated(desc, settings) else None
-            pending.append((sig, f"generation accepts method settings the property says must be rejected: {json.dumps(settings)}", case))
+            sig = SIG_REPEATED if only_gap_is_repeated(desc, settings, selective) else None
+            nomethod = [e["selector"] for e in settings if e["selector"] not in desc["methods"] and e.get("auto_populated_fields")]
+            why = f" (selector(s) naming no method of the API: {nomethod})" if nomethod else ""
+            pending.append((sig, f"generation accepts method settings the property says must be rejected{why}{seltxt}: {json.dumps(settings)}", case))
         if verdict == "must-succeed" and failed:
-            pending.append((None, f"generation rejects valid method settings {json.dumps(settings)}: {json.dumps(o)[:300]}", case))
+            pending.append((None, f"generation rejects valid method settings{seltxt} {json.dumps(settings)}: {json.dumps(o)[:300]}", case))
         if o["outcome"] == "accepted":
             want = {e["selector"]: list(e.get("auto_populated_fields") or []) for e in settings}
             if o.get("selectors") != want:
@@ -404,7 +481,7 @@ def run_validation(ctx, n_apis, per_api, seed_tag="C18-val", cli_every=7, full_f
         agree = (res is None) == (o["outcome"] != "accepted") and (res is not None or kindname == {"rejected": "MethodSettingsError", "crashed": o.get("exception")}.get(o["outcome"]))
         ctx.oblige(f"T2 generator CLI outcome = all_method_settings outcome for {json.dumps(c['settings'])[:160]}", agree,
                    f"cli={'ok' if res is not None else kindname} impl={json.dumps(o)[:200]}")
-        if spec_verdict(c["desc"], c["settings"]) == "must-fail" and res is not None and not only_gap_is_repeated(c["desc"], c["settings"]):
+        if spec_verdict(c["desc"], c["settings"], c["selective"]) == "must-fail" and res is not None and not only_gap_is_repeated(c["desc"], c["settings"], c["selective"]):
             pending.append((None, f"the generator produced a library for method settings that must be rejected: {json.dumps(c['settings'])}", c["case"]))
     failing, errors, nfiles = coq.eval_checks("c18val" + re.sub(r"\W", "", seed_tag), IMPORTS, "", checks)
     ctx.oblige(f"T2 validation: Model.enforce = enforce_valid_method_settings (outcome and error report) on {len(checks)} settings lists ({nfiles} cases files)",
@@ -781,14 +858,15 @@ def replay(ctx, rep):
     c = rep.get("case", {})
     if c.get("kind") == "validation":
         files_req = apigen.req_from_b64(c["request_b64"])
-        req = gen.with_params(files_req, ["transport=grpc"], gen.case_dir("c18replay"), service_yaml=service_yaml(c["settings"]))
+        sel = c.get("selective")
+        req = gen.with_params(files_req, ["transport=grpc"], gen.case_dir("c18replay"), service_yaml=service_yaml(c["settings"], sel))
         o = gen.impl("msettings", [{"request_b64": apigen.req_b64(req)}])[0]
-        verdict = spec_verdict(c["desc"], c["settings"])
-        print(f"replay: settings {json.dumps(c['settings'])}\nreplay: implementation: {json.dumps(o)}\nreplay: the property's sentence: {verdict}")
+        verdict = spec_verdict(c["desc"], c["settings"], sel)
+        print(f"replay: settings {json.dumps(c['settings'])}\nreplay: selective_gapic_generation: {json.dumps(sel)}\nreplay: implementation: {json.dumps(o)}\nreplay: the property's sentence: {verdict}")
         failed = o["outcome"] != "accepted"
         if (verdict == "must-fail" and not failed) or (verdict == "must-succeed" and failed):
             ctx.violation(rep.get("what", "validation disagrees with the property"), c, rep.get("signature"))
-        failing, errors, _ = coq.eval_checks("c18replay", IMPORTS, "", [("replay", f"outcome_eqb (enforce {coq_methods(c['desc'])} {coq_settings(c['settings'])}) {coq_outcome(o)}")])
+        failing, errors, _ = coq.eval_checks("c18replay", IMPORTS, "", [("replay", f"outcome_eqb (enforce {coq_table(c['desc'], sel)} {coq_settings(c['settings'])}) {coq_outcome(o)}")])
         ctx.oblige("replay: Model.enforce = implementation", not failing and not errors, "; ".join(failing + errors)[:600])
     elif c.get("kind") == "call" and "spec" in c:
         files_req = apigen.req_from_b64(c["request_b64"])
